@@ -46,6 +46,9 @@ def _len(eng, node, x):
         return x.shape[0]
     if isinstance(x, z3.SeqRef):
         return z3.Length(x)
+    if isinstance(x, Rec) and "nodes" in x.fields and isinstance(x.fields["nodes"], SDict):
+        # number of nodes of a graph: the length of its (ghost) key sequence
+        return eng.dict_keys(x.fields["nodes"]).n
     raise Unsupported(f"len of {type(x).__name__}")
 
 
@@ -97,6 +100,9 @@ def _reversed(eng, node, x):
 def _all(eng, node, x):
     if isinstance(x, NArr):
         return b_and(*[truth(e) for e in x.data])
+    if isinstance(x, SList) and len(x.comps) == 1 and x.comps[0].sort().range() == z3.BoolSort():
+        i = z3.Int("_alli")
+        return z3.ForAll([i], z3.Implies(z3.And(0 <= i, i < x.n), x.comps[0][i]))
     return b_and(*[truth(e) for e in eng.concrete_or_fail(x)])
 
 
@@ -104,6 +110,9 @@ def _all(eng, node, x):
 def _any(eng, node, x):
     if isinstance(x, NArr):
         return b_or(*[truth(e) for e in x.data])
+    if isinstance(x, SList) and len(x.comps) == 1 and x.comps[0].sort().range() == z3.BoolSort():
+        i = z3.Int("_anyi")
+        return z3.Exists([i], z3.And(0 <= i, i < x.n, x.comps[0][i]))
     return b_or(*[truth(e) for e in eng.concrete_or_fail(x)])
 
 
@@ -919,3 +928,10 @@ def _path(eng, node, p=None):
     if isinstance(p, Rec) and p.cls == "Path":
         return p
     return Rec("Path", {"suffix": z3.FreshConst(z3.StringSort(), "suffix"), "_id": z3.FreshConst(TObj.sort, "path")})
+
+
+@reg("tqdm.tqdm")
+def _tqdm(eng, node, *a, **k):
+    """progress bar: no effect on the verified state"""
+    from .engine import LoggerObj
+    return LoggerObj()
